@@ -441,13 +441,20 @@ func (a *A) mapNeverEmpty(ownerT types.Type, field string, holderT types.Type, m
 			continue
 		}
 		rroot, rfs := fieldChain(strip(c.Call.Args[0]))
+		early := false // the holder is filled before it is stored into the owner's field
 		if rroot != ssa.Value(ownerAlloc) || len(rfs) != 1 || rfs[0] != field {
-			continue
+			if st := ssau.StoredInField(strip(c.Call.Args[0]), load.RootPath, ownerName, field); st == nil || st != fieldStore {
+				continue
+			}
+			early = true
 		}
 		if !unconditionalMapUpdate(m, mapField) {
 			continue
 		}
-		if !ssau.InstrBefore(fieldStore, c) {
+		if !early && !ssau.InstrBefore(fieldStore, c) {
+			continue
+		}
+		if early && !ssau.InstrBefore(c, fieldStore) {
 			continue
 		}
 		dom := true
